@@ -230,7 +230,9 @@ impl Gen {
         let i = if self.r.chance(2, 3) { cands[cands.len() - 1 - self.r.below(cands.len().min(3) as u64) as usize] } else { *self.r.pick(&cands) };
         let after = self.m.check_truncate(i).ok()?;
         // choose the term of the next appends relative to the removed suffix
-        let removed_first_term = self.m.log.get(&i).map(|e| e.0.0);
+        // first entry that the truncation removes (the log may start above `i`, e.g. truncate(0) of a log
+        // whose first index is 100)
+        let removed_first_term = self.m.log.range(i..).next().map(|(_, e)| e.0.0);
         let kept_term = after.map(|a| a.0).unwrap_or(0);
         if let Some(rt) = removed_first_term {
             if self.p.lower_term && rt > kept_term.max(1) && self.r.chance(1, 2) {
